@@ -28,6 +28,7 @@ THEOREMS = [
     "c16_unbounded_flush_waits_for_child",
     "c16_entry_cancel_no_orphan",
     "c16_entry_gap_orphans",
+    "c16_returned_value_was_written_by_child", "c16_dead_child_never_answers",
 ]
 RULE = (
     "real children {well-behaved, exits at step k (k=0..4), ignores SIGTERM after signalling readiness, never reads stdin, "
